@@ -22,4 +22,11 @@ CHECKS = {
         note="Bounded: channel counts <= 4 (5 thorough), offers <= 5 (6). The protocol driver mirrors startReadChannel/waitChannel; the manager itself is exercised in the C02 pipeline harness.",
         parts=[part("mapping", "core", "util", "TestVerifC16Mapping", shards=(4, 16))],
     ),
+    "C14": dict(
+        level="model_checking", engine="seq",
+        technique="explicit-state BFS over receive/tick/clear histories on the real Packer + MemoryProtector under virtual time, step-wise comparison with a list reference model",
+        text="Every history of receive(size class)/clock-advance/clear operations up to the depth bound over one or two real packers sharing the real global memory protector, for every threshold configuration and failing-flush index, is replayed on fresh objects; each callback batch, each return value, the buffered remainder and the global byte counter are compared with a reference list model after every step.",
+        note="Bounded: depth 7 (9 thorough; one less with two packers), three size classes, MaxCount 1..3, callback failure at flush 0..2. Time is testing/synctest virtual time. Assumes single-goroutine use per packer as in startReplicateDMLMsg.",
+        parts=[part("packer", "server", "msgpacker", "TestVerifC14Packer", shards=(8, 16), budget=(150, 900))],
+    ),
 }
